@@ -20,7 +20,7 @@ CHECKS = {
             "SMT bounded model checking of the feedback ring, all held inputs"),
     "C05": ("model_checking", "E1 bp2smt BMC",
             "Bounded model checking as C03 against the four-row set/reset truth table with the declared priority, inputs ranging over all int32 values (not only threshold boundaries).",
-            "SMT bounded model checking (unrolled ticks, symbolic input histories)"),
+            "SMT bounded model checking (unrolled ticks, symbolic input histories) + CrossHair on MemoryBuilder._invert_comparison"),
     "C06": ("translation_validation", "E1 bp2smt",
             "z3 decides for all input valuations and all non-negative contents of entities read through .output that the circuit condition of the entity found at the user tile, evaluated on the networks actually wired to it, is true exactly when the assigned expression is positive; a missing circuit condition is a closed-form violation.",
             "SMT (z3 QF_UFBV) translation validation of entity circuit conditions, all inputs and contents"),
@@ -35,7 +35,7 @@ CHECKS = {
             "captured CP-SAT model -> z3 (fixed variables, all outcomes) + closed multiset clause + SMT translation validation"),
     "C10": ("translation_validation", "E1 bp2smt twins",
             "Two blueprints of the same source (optimised / --no-optimize) produced by the real compiler are encoded side by side over shared input variables; z3 decides equality of every common named output and entity condition for all inputs, and of the end-of-step values for all K-step histories of stateful programs.",
-            "SMT equivalence checking of two emitted blueprints (all inputs / bounded histories)"),
+            "SMT equivalence checking of two emitted blueprints (all inputs / bounded histories) + CrossHair on CSEOptimizer._make_key"),
     "C11": ("other", "E2 pyast2smt + E1 bp2smt",
             "Integer-kernel property. E2: the three fold kernels are re-read from /repo at every run, specialised per operator and executed symbolically (vf/pyast2smt.py: paths as ite, Python ints as bit-vectors whose width is justified by interval analysis); z3 decides per operator and sign region, over ALL int32 operand pairs in the interpreted domain, that an in-range folded value equals the run-time value; models are replayed on the real function. E1: the same constant expression in 16 syntactic positions is validated against the run-time reference for all values of the other inputs.",
             "symbolic execution of the real fold kernels from source (AST -> z3 bit-vectors) + SMT translation validation of folded blueprints"),
@@ -50,7 +50,7 @@ CHECKS = {
             "SMT translation validation against a substitution-semantics reference"),
     "C16": ("translation_validation", "E1 bp2smt",
             "The blueprint of a program with for loops is compared, for all inputs, with the generator's own unrolling (mathematical range definition); placed entities compared as a multiset.",
-            "SMT translation validation against an unrolling reference"),
+            "SMT translation validation against an unrolling reference + CrossHair on ForStmt.get_iteration_values"),
     "C17": ("translation_validation", "E1 bp2smt",
             "Library: each documented function of lib/math.facto, compiled through a one-line caller, equals its documented definition for ALL int32 arguments satisfying a no-overflow precondition written as a formula. Imports: generated import graphs on disk (chains, diamonds, cycles, sub-directories, decoy files) compiled from three working directories equal the pasted twin for all inputs.",
             "SMT translation validation against documented definitions under formula preconditions; import graphs enumerated"),
